@@ -112,6 +112,11 @@ def run(chk, gate, status):
         rng = random.Random(chk.seed * 100003 + 150000 + i)
         rg = recipes.RecipeGen(rng, rng.randint(3, hi), allow_d13=False)
         cases.append((rg, make_queries(rng, rg, chk.tier)))
+    sp = recipes.directed_recipes()[-1]        # the spiked litre: flows and amounts remaining in nL and nmol
+    rp = recipes.Replayed(sp)
+    cases.insert(0, (rp, [dict(qd, n=n, unit=u) for n in (1, 2) for u in ('nL', 'nmol', 'ng') for qd in (
+        {'q': 'flows', 'stage': 'all'}, {'q': 'remaining', 'stage': 'all', 'mode': 'before'}, {'q': 'remaining', 'stage': 'all', 'mode': 'after'},
+        {'q': 'flows', 'stage': 'st1'})]))
     for p in recipes.twin_lot_recipes():
         rp = recipes.Replayed(p)
         qs = []
